@@ -151,6 +151,8 @@ fixed("C08", "18b51ea", "CUR / PCov-CUR warm start on float32 data re-orthogonal
 
 fixed("C08", "b2f2ffd", "sample PCov-CUR warm start kept using the X and y arrays of the cold fit (X_ref_, y_ref_ are references to the caller's arrays) instead of the data it is handed: after the caller re-used those buffers the warm-started selection and pi differed from the cold fit (17 of 2146 generated chains once the harness overwrote its buffers after each fit)")
 
+fixed("C03", "71a1f76", "pcovr_covariance compared the round-off eigenvalues of a rank-deficient X^T X (eps x largest eigenvalue) with the absolute rcond 1e-12: for data of scale >~ 10 they entered (X^T X)^(-1/2) with weights ~1e5, the feature-space projector got large components outside the row space of X and transform / predict of NEW samples differed from the sample-space route by more than the data scale (6x15 X of scale 40: 146 against 96)")
+
 # ------------------------------------------------------------------ C15
 fixed("C15", "d67ecc1", "periodic_pairwise_euclidean_distances(list-of-lists, cell_length=...) raised AttributeError: the dimension check read X.shape before the documented array-like input was validated")
 
